@@ -2,6 +2,7 @@
 from props.hist_base import HistPlugin
 
 
+import common
 import hist
 
 
@@ -24,3 +25,53 @@ class Plugin(HistPlugin):
             return HistPlugin.gen_case(self, rng, i, tier)
         finally:
             hist.UPSERT_RATE[0] = 0.25
+
+    def extra_checks(self, rng, tier, seed):
+        """The upserted document carries every equality field of the filter (implementation
+        probes): for an upsert that matches nothing, with a filter made of literal equalities
+        (plain, {$eq: v}, dotted paths, null and array literals included) and an update that
+        writes other fields, each filter path must read back exactly its literal."""
+        import copy
+        import mongomock
+        n = 150 if tier == 'quick' else 3000
+        viol, probes = [], 0
+        lits = [1, 'a', None, 0, '', False, [1, 2], 2.5, {'k': 1}]
+        for i in range(n):
+            f = {'uniq': 'no-document-has-this'}       # nothing matches: the upsert inserts
+            for key in rng.sample(['a', 'b', 'c.d', 'c.e', 'g'], rng.choice([1, 2, 3])):
+                v = rng.choice(lits)
+                f[key] = v if rng.random() < 0.7 or isinstance(v, dict) else {'$eq': v}
+            u = rng.choice([{'$set': {'z': 1}}, {'$inc': {'z': 2}}, {'$push': {'zl': 1}}, {'$setOnInsert': {'z': 0}},
+                            {'$set': {'z': 1}, '$currentDate': {'t': True}}])
+            via = rng.choice(['update_one', 'update_many', 'find_one_and_update'])
+            c = mongomock.MongoClient().db.c
+            c.insert_one({'_id': 'other', 'a': 'unrelated-value'})
+            try:
+                if via == 'find_one_and_update':
+                    c.find_one_and_update(copy.deepcopy(f), copy.deepcopy(u), upsert=True)
+                else:
+                    getattr(c, via)(copy.deepcopy(f), copy.deepcopy(u), upsert=True)
+            except Exception:  # noqa  (e.g. conflicting paths): not this probe's business
+                continue
+            docs = [d for d in c.find() if d['_id'] != 'other']
+            probes += 1
+            ok = len(docs) == 1
+            if ok:
+                d = docs[0]
+                for key, cond in f.items():
+                    want = cond['$eq'] if isinstance(cond, dict) and set(cond) == {'$eq'} else cond
+                    cur = d
+                    for part in key.split('.'):
+                        if not isinstance(cur, dict) or part not in cur:
+                            cur = KeyError
+                            break
+                        cur = cur[part]
+                    if cur is KeyError or cur != want or type(cur) is not type(want):
+                        ok = False
+            if not ok:
+                viol.append({'case': {'filter': common.to_jsonable(f), 'update': common.to_jsonable(u), 'via': via},
+                             'impl': {'inserted': common.to_jsonable(docs)},
+                             'failing_clause': 'the upserted document does not carry an equality field of the filter'})
+                if len(viol) >= 3:
+                    break
+        return viol, {'upsert_seed_probes': probes}
